@@ -22,6 +22,8 @@
  *                                 of the pipe manager (released by krel)
  *   krel pN probe|mgr              release the kept reference
  *   attach pN upump|uclock         upipe_attach_upump_mgr / upipe_attach_uclock
+ *   freeze pN / thaw pN            UPROBE_FREEZE_UPUMP_MGR / UPROBE_THAW_UPUMP_MGR thrown through the pipe's probes: the
+ *                                  probe that hands out the event loop manager stops / resumes answering
  *   answer                         (overridden) as pd_ext_c01.c, but a ubuf_mgr request whose flow
  *                                 definition is a picture or sound format is answered with a fresh
  *                                 ubuf_mem manager built from that flow definition (interposed like the
@@ -576,6 +578,12 @@ bool pd_ext_k(int nt, char **tok)
             if (n == 0 || nregistered == before) break;
         }
         printf("ret 0 %d\n", total);
+        return true;
+    }
+    if ((!strcmp(c, "freeze") || !strcmp(c, "thaw")) && nt >= 2) {
+        struct obj *o = find_pipe(tok[1]);
+        if (o == NULL || o->upipe == NULL) { ret(-1); return true; }
+        ret(upipe_throw(o->upipe, c[0] == 'f' ? UPROBE_FREEZE_UPUMP_MGR : UPROBE_THAW_UPUMP_MGR));
         return true;
     }
     if (!strcmp(c, "attach") && nt >= 3) {
